@@ -16,9 +16,12 @@ NEW_THEOREMS = [
     "bcd_roundtrip", "bcd_from_str_documented", "bcd_from_str_accepts_only", "bcd_from_str_rejects", "bcd_check_is_bcd",
     "pattern_block_stream", "numeric_pattern_unit", "align_block_padding_is_pattern", "align_block_total",
     "bcd_constructor_accepts_iff", "bcd_valid_is_decimal_nibbles", "bcd_from_str_hex_components", "bcd_to_version_is_from_str",
+    # SecBootBlckSize (spsdk/sbfile/misc.py): Model/MiscBlkModel.v + Proofs/MiscBlkProofs.v
+    "blck_align_least", "blck_is_aligned_iff", "blck_num_blocks_exact", "blck_num_blocks_total",
+    "blck_align_then_blocks_is_ceiling", "blck_fill_zeros_only_appends",
 ]
 NEW_DEPS = ["Proofs/MiscGrammarProofs.vo", "Proofs/MiscBitsProofs.vo", "Proofs/MiscBcdProofs.vo",
-            "Proofs/MiscPatternProofs.vo", "Proofs/MiscBcdCtorProofs.vo"]
+            "Proofs/MiscPatternProofs.vo", "Proofs/MiscBcdCtorProofs.vo", "Proofs/MiscBlkProofs.vo"]
 
 
 # ------------------------------------------------------------------ independent specifications
@@ -192,6 +195,35 @@ def ext_oracle(case, res, grammar_value):
         if val != pattern_stream(ptag, pv, sz):
             return True, (f"{name}:wrong", f"get_block({sz}, tag {ptag}, {pv}) = {val.hex()}")
         return True, None
+    if fn in (19, 20, 21, 22):
+        # SecBootBlckSize: specification by bit masks and multiplication only (no % or // as in the implementation)
+        BS = 16
+        x = a[0]
+        if fn == 19:
+            if not ok or val != (1 if (x & (BS - 1)) == 0 else 0):
+                return True, ("SecBootBlckSize.is_aligned:wrong", f"is_aligned({x}) = {val if ok else 'rejected'}")
+            return True, None
+        if fn == 20:
+            if x < 0:
+                return True, (None if not ok else ("SecBootBlckSize.align:accepts-negative", f"align({x}) = {val}"))
+            if not ok:
+                return True, ("SecBootBlckSize.align:rejects-valid", f"align({x}) rejected")
+            if not (val >= x and val - x < BS and (val & (BS - 1)) == 0):
+                return True, ("SecBootBlckSize.align:not-least-aligned", f"align({x}) = {val}")
+            return True, None
+        if fn == 21:
+            if (x & (BS - 1)) != 0:
+                return True, (None if not ok else ("SecBootBlckSize.to_num_blocks:accepts-unaligned", f"to_num_blocks({x}) = {val}"))
+            if not ok:
+                return True, ("SecBootBlckSize.to_num_blocks:rejects-valid", f"to_num_blocks({x}) rejected")
+            if val * BS != x:
+                return True, ("SecBootBlckSize.to_num_blocks:wrong", f"to_num_blocks({x}) = {val}")
+            return True, None
+        if not ok:
+            return True, ("SecBootBlckSize.align_block_fill_zeros:rejects-valid", f"align_block_fill_zeros(len {len(x)}) rejected")
+        if not (val[:len(x)] == x and len(val) - len(x) < BS and (len(val) & (BS - 1)) == 0 and not any(val[len(x):])):
+            return True, ("SecBootBlckSize.align_block_fill_zeros:wrong", f"align_block_fill_zeros({x.hex()}) = {val.hex()}")
+        return True, None
     return False, None
 
 
@@ -246,6 +278,14 @@ def ext_streams(tier, rng):
     blk += [[8, VB(bytes([0xAA]) * n), VI(al), VI(pt), VI(pv)] for n in range(0, 10 if thorough else 7)
             for al in ((1, 3, 4, 8, 16) if thorough else (1, 3, 8)) for (pt, pv) in pats]
     cases["get_block / align_block padding: all (size, pattern) over small sizes incl. negative numbers"] = (blk, True)
+    # SecBootBlckSize: every size in a box around zero and around powers of two, byte strings of every length 0..49
+    szs = sorted(set(list(range(-40, 700 if thorough else 200)) + [(1 << k) + d for k in (16, 31, 32, 53, 64, 128, 512) for d in range(-17, 18)]
+                     + [-(1 << k) + d for k in (32, 64) for d in (-16, -1, 0, 1, 16)]
+                     + [rng.getrandbits(rng.choice([20, 40, 64, 200])) for _ in range(200 if thorough else 40)]))
+    sbb = [[f, VI(s)] for s in szs for f in (19, 20, 21)]
+    sbb += [[22, VB(bytes((i * 37 + n) % 256 for i in range(n)))] for n in range(0, 98 if thorough else 50)]
+    sbb += [[22, VB(bytes(n))] for n in (0, 1, 15, 16, 17, 31, 32, 33)]
+    cases["SecBootBlckSize is_aligned / align / to_num_blocks / align_block_fill_zeros"] = (sbb, True)
     return cases
 
 
